@@ -130,6 +130,18 @@ def check(ctx, clean, dirty, replay):
         for k, s in enumerate(allsol.values()):
             s.set_param("wl", 1.0 + 0.01 * k)
         defaults_before = {i: dict(s.default_params) for i, s in allsol.items()}
+        # the emptiness tests themselves, on every solver and model of the hierarchy: a solver is empty iff it holds no structure,
+        # a model iff it has no pins (Model.prune reports the same)
+        for s in allsol.values():
+            if bool(s.is_empty()) != (len(s.structures) == 0):
+                ctx.violation("C19:is-empty", f"Solver.is_empty() = {s.is_empty()} for a solver holding {len(s.structures)} structures", replay)
+                return False
+            for st in s.structures:
+                if st.model is not None:
+                    nop = len(st.model.pin_dic) == 0
+                    if bool(st.model.is_empty()) != nop or bool(st.model.prune()) != nop:
+                        ctx.violation("C19:is-empty", f"Model.is_empty() / Model.prune() wrong for a model with {len(st.model.pin_dic)} pins", replay)
+                        return False
         ret = sol.prune()
         left = {}
         walk(sol, left)
@@ -145,6 +157,9 @@ def check(ctx, clean, dirty, replay):
     exp = expected_skeleton(sk)
     if got != exp:
         ctx.violation("C19:wrong-survivors", f"after prune the hierarchy is {got}, expected {exp}", replay)
+        return False
+    if bool(sol.is_empty()) != sk_dead(sk):
+        ctx.violation("C19:is-empty", f"after prune() Solver.is_empty() = {sol.is_empty()}, the solver {'is' if sk_dead(sk) else 'is not'} empty", replay)
         return False
     if bool(ret) != sk_dead(sk):
         ctx.violation("C19:return-value", f"prune() returned {ret}, solver is {'dead' if sk_dead(sk) else 'not empty'}", replay)
